@@ -201,7 +201,7 @@ class DataGen(object):
     def block_strfn(self):
         r = self.r
         long_ok = self.storage != 32
-        s = r.choice(["", "A", "HELLO", "AB CD"] + (["ABCDEFGHIJKLMNOPQRSTUVWXYZ0123456789+-"] if long_ok else []))
+        s = r.choice(["", "A", "HELLO", "AB CD"] + (["ABCDEFGHIJKLMNOPQRSTUVWXYZ0123456789+-", "0" * 33 + "12"] if long_ok else []))
         self.add(("let", ("var", "W$"), ("str", s), False))
         L = len(s)
         W = ("var", "W$")
@@ -209,9 +209,13 @@ class DataGen(object):
                  ("fn", "MID$", [W, n(r.choice([1, max(1, L), L + 1])), n(r.choice([0, 1, L + 3]))]),
                  ("fn", "LEN", [W]), ("fn", "LEN", [("bin", "+", W, W)]), ("fn", "CHR$", [n(r.choice([48, 65, 90]))]),
                  ("fn", "STRING$", [n(r.choice([0, 1, 3])), ("str", "AB")]), ("fn", "INSTR", [n(1), ("bin", "+", W, ("str", "XAB")), ("str", "AB")]),
-                 ("fn", "VAL", [("str", r.choice(["12", "2.5", "0"]))])]
+                 ("fn", "VAL", [("str", r.choice(["12", "2.5", "0"]))]), ("fn", "VAL", [W])]
         if L:
             exprs.append(("fn", "ASC", [W]))
+        # INSTR at its boundaries: start at / one past / beyond the end, empty and over-long patterns
+        pats = [("str", ""), ("str", s[-1:] or "Z"), W, ("bin", "+", W, ("str", "X")), ("str", s[:1] or "Q")]
+        for _ in range(2):
+            exprs.append(("fn", "INSTR", [n(r.choice([1, max(1, L), L + 1, L + 2])), W, r.choice(pats)]))
         r.shuffle(exprs)
         show = [self.tag()]
         for e in exprs[:4]:
@@ -306,7 +310,7 @@ def compare(prog, inputs, opts, hyp=()):
         res["problems"].append(("refused" if conv["documented"] else "internal", conv.get("exc")))
         return res
     res["emitted"] = conv["out"]
-    b = harness.run_b09(conv["out"], inputs=inputs, budget=60000)
+    b = harness.run_b09(conv["out"], inputs=inputs, budget=60000, storage=opts.get("default_str_storage", 32))
     if b["status"] != "ok":
         res["problems"].append(("b09-" + b["status"], b["error"]))
         return res
